@@ -87,7 +87,8 @@ def tla_cfg(sc, status_texts=None):
     cfg["fw"] = (sc["target"].get("identity") or {}).get("rev_major", 0)
     cfg["all_programs"] = 1 if sc["driver"].get("init_program_tags", True) else 0
     if sc.get("slc"):
-        cfg["slc"] = [{"file": int(k), "type": v["type"], "words": list(v["words"])} for k, v in sorted(sc["slc"].items(), key=lambda kv: int(kv[0]))]
+        cfg["slc"] = [dict({"file": int(k), "type": v["type"], "words": list(v["words"])}, **({"recs": [list(r) for r in v["recs"]]} if "recs" in v else {}))
+                      for k, v in sorted(sc["slc"].items(), key=lambda kv: int(kv[0]))]
     if sc.get("project"):
         cfg["project"], cfg["mem"] = tla_project(sc["project"], sc["mem"])
     return cfg
